@@ -16,6 +16,7 @@ From Verif Require Import C15.Model C15.Spec C15.Proofs C15.Witness C15.Faults C
 From Verif Require Import C15.Keys C15.KeysProofs.
 From Verif Require Import C15.Utf8 C15.Utf8Proofs C15.Entry C15.EntryProofs.
 From Verif Require Import C15.Notify C15.NotifyProofs.
+From Verif Require Import C15.Settle C15.SettleProofs.
 Import ListNotations.
 Open Scope Z_scope.
 
@@ -955,3 +956,80 @@ Example C15_nw_witness_status_counts :
   map (fun e => (snd (fst e), snd e)) (sES (mem (nstate true nw_witness)))
     = [(200, 1); (503, 1); (201, 1); (200, 1); (404, 1)].
 Proof. vm_compute. split; reflexivity. Qed.
+
+(* ====================================================================== *)
+(* 10. Which tree groups the records of a flush (Settle.v).
+
+   ConvergeAggregation first inserts EVERY URL of the batch into the URL tree
+   (common.NormalizeTree) — whatever the aggregation holds, also when it is
+   empty — and only then are the records grouped (NormalizeURL = Insert, then
+   Lookup, record by record).  For every tree that keeps what it holds (a URL
+   just inserted is held, stays held, and inserting a held URL changes nothing),
+   every aggregation, every list of stored keys that is re-normalised in
+   between and every batch: every record of the flush is filed under the key the
+   tree gives its URL at the END of that flush.  So within one flush no record
+   is grouped by a tree that has not yet seen the rest of the batch; the
+   batch-dependent keys of finding F-C15 come only from re-keying aggregates
+   filed by EARLIER flushes (and from a tree that does not keep what it holds:
+   the real tree is observed to meet the conclusion on every flush without a
+   re-keying pass, and to miss it in about 2 of 10 000 flushes with one — the
+   pass inserts already-normalised keys as if they were URLs; see Settle.v).
+   The harness observes the conclusion on every flush (suite "settle"), and the
+   monitor's classifier separates a flush that grouped before the tree had
+   been given the whole batch and is not settled (signature
+   batch-dependence:flush-grouped-before-tree-settled) from F-C15. *)
+Theorem C15_grouping_settled : C15_grouping_settled_with false.
+Proof. exact grouping_settled_head. Qed.
+Print Assumptions C15_grouping_settled.
+
+(* The seeded variant "the convergence step is skipped while nothing has been
+   aggregated yet" groups the first batch by a tree that converges in the middle
+   of the grouping. *)
+Theorem C15_grouping_settled_skip_on_empty_refuted : ~ C15_grouping_settled_with true.
+Proof. exact grouping_settled_skip_refuted. Qed.
+Print Assumptions C15_grouping_settled_skip_on_empty_refuted.
+
+(* ... and it differs from the code only on a flush that meets an empty
+   aggregation: any other flush makes the same tree calls. *)
+Theorem C15_skip_on_empty_differs_only_on_empty_state :
+  forall tree insert lookup t olds urls urlsC,
+    flush_tree tree insert lookup true false t olds urls urlsC
+    = flush_tree tree insert lookup false false t olds urls urlsC.
+Proof. exact skip_only_on_empty. Qed.
+Print Assumptions C15_skip_on_empty_differs_only_on_empty_state.
+
+(* Non-vacuity: the toy tree (set of inserted URLs; three of them make every URL
+   read as one parameter) meets the three hypotheses; one flush of three sibling
+   URLs on an empty aggregation: the code files all three under the parameter,
+   the variant files the first two under their raw URLs although the tree, when
+   the flush ends, gives the parameter for them. *)
+Example C15_toy_tree_flushes :
+  (forall t u, toy_stable (toy_insert t u) u) /\
+  (forall t u v, toy_stable t u -> toy_stable (toy_insert t v) u) /\
+  (forall t u, toy_stable t u -> toy_insert t u = t) /\
+  flush_tree toy toy_insert toy_lookup false true [] [] toy_urls toy_urls
+    = (toy_urls, [toy_param; toy_param; toy_param], [toy_param; toy_param; toy_param]) /\
+  flush_tree toy toy_insert toy_lookup true true [] [] toy_urls toy_urls
+    = (toy_urls, [[49]; [50]; toy_param], [toy_param; toy_param; toy_param]).
+Proof.
+  split; [ exact toy_stable_insert | ].
+  split; [ exact toy_stable_mono | ].
+  split; [ exact toy_stable_noop | ].
+  split; apply toy_flushes.
+Qed.
+
+(* Status codes are used as logged: a record with HAProxy's placeholder -1 (or
+   0, 99, 600, 999) is counted under that value like any other, so the request
+   count of an endpoint is the sum of its status counts for such records too
+   (this is an instance of C15_conservation, which quantifies over all Z). *)
+Example C15_non_http_status_values_are_counted :
+  let r st := mkRec [71] [104] st 1 2 5 [] [] false in
+  let s := run [mkBatch [r 200; r (-1); r 0; r (-1); r 999; r 600; r 99] false false
+                        (fun u => u) (fun u => u) (fun u => u) (fun u => u)] in
+  map (fun e => a_count (snd e)) (sE s) = [7] /\
+  map (fun e => (snd (fst e), snd e)) (sES s)
+    = [(200, 1); (-1, 2); (0, 1); (999, 1); (600, 1); (99, 1)] /\
+  map (fun e => (snd (fst e), snd e)) (sES (restore (persist s)))
+    = [(200, 1); (-1, 2); (0, 1); (999, 1); (600, 1); (99, 1)] /\
+  map (fun z => zst (Uint63.of_Z z)) [200; 0; 999; 2305843009213693953] = [200; 0; 999; -1].
+Proof. vm_compute. repeat split. Qed.
